@@ -16,6 +16,8 @@ CONSTANTS
   UnsetGuard = FALSE
   RemoveCancels = TRUE
   SharedGen = TRUE
+  EmitBeforeClose = TRUE
+  MaxHeld = 0
 INVARIANT TypeOK
 INVARIANT DistinctTickets
 INVARIANT RegistryExact
